@@ -34,7 +34,7 @@ LIB_OBJ := $(call obj,$(TOOLS_SRC) $(CSG_SRC))
 
 WRAP_PTHREAD := pthread_create pthread_join pthread_exit pthread_mutex_init pthread_mutex_destroy \
                 pthread_mutex_lock pthread_mutex_unlock pthread_mutex_trylock pthread_self
-WRAP_PROC    := getpid gethostname time localtime_r open close fcntl
+WRAP_PROC    := getpid gethostname time localtime_r
 wrapflags = $(foreach s,$(1),-Wl,--wrap=$(s))
 
 CORE_SRC := $(wildcard $(V)/sim/core/*.cc)
